@@ -97,6 +97,8 @@ def _lift_contract(name, odd, sign):
         ],
         invariants={
             1: [
+                # (explicit although a for-range loop gives it for free: keeps the proof when the loop is rewritten as a while loop)
+                "0 <= n and n <= length(A) // 2",
                 "length(A) == old(length(A))",
                 "same_parity(content(A), old(content(A)), length(A), %d)" % odd,
                 "forall(0, length(A), lambda j: implies(j %% 2 == %d and j // 2 < n, content(A)[j] == old(content(A))[j] %s "
@@ -104,6 +106,7 @@ def _lift_contract(name, odd, sign):
                 "forall(0, length(A), lambda j: implies(j %% 2 == %d and j // 2 >= n, content(A)[j] == old(content(A))[j]), trigger=lambda j: content(A)[j])" % upd,
             ],
             2: [
+                "D <= i and i <= L + D",
                 "sum == wsum(old(content(A)), length(A), content(taps), D, n, i - D, %d)" % odd,
             ],
         },
